@@ -122,7 +122,7 @@ class Case:
              evidence and for matching known findings)
     nontrivial : whether the case counts as non-trivial for the evidence
     """
-    __slots__ = ("suite", "req", "impl", "oracle", "cls", "nontrivial", "info")
+    __slots__ = ("suite", "req", "impl", "oracle", "cls", "nontrivial", "info", "_mod")
 
     def __init__(self, suite, req, impl, oracle=None, cls="", nontrivial=True, info=None):
         self.suite = suite
@@ -132,6 +132,7 @@ class Case:
         self.cls = cls
         self.nontrivial = nontrivial
         self.info = info
+        self._mod = None
 
 
 def run_driver(lines, timeout=600):
